@@ -183,4 +183,42 @@ def getSegmentIndex (durs : List Nat) (R tc fuel : Nat) : GsiResult :=
     | some r => .found (r.1 + 1) r.2.1 r.2.2
     | none => .running
 
+/-! ## count-driven loops of the MP4 parser (`dashlive/mpeg/mp4.py`, `for … in range(count)`) -/
+
+/-- what `harness/gen_parser_loops.py` reads from the source of one loop.
+`cap`: constant of an `if count > CONST: raise` in front of the loop; `countMax`: largest value
+of the field the count is read from; `minBytes`: bytes every iteration reads through a read
+that raises at the end of the input (0: every read of the body is conditional). -/
+structure ParserLoop where
+  cls : String
+  fn : String
+  idx : Nat
+  count : String
+  cap : Option Nat
+  countMax : Nat
+  minBytes : Nat
+deriving Repr, DecidableEq
+
+/-- the loop on an input with `rem` bytes left: an iteration that finds fewer than `k` bytes
+raises (and is the last one); → number of iterations started -/
+def countLoop (k : Nat) : Nat → Nat → Nat
+  | 0, _ => 0
+  | count + 1, rem => if rem < k then 1 else 1 + countLoop k count (rem - k)
+
+/-- the guard in front of the loop, then the loop -/
+def ParserLoop.run (l : ParserLoop) (count rem : Nat) : Nat :=
+  match l.cap with
+  | some c => if count > c then 0 else countLoop l.minBytes count rem
+  | none => countLoop l.minBytes count rem
+
+/-- the bound on the number of iterations the source supports: the cap, a count field of at
+most 16 bits, or the input length; `none` = nothing bounds the loop but a 32/64-bit field -/
+def ParserLoop.bound (l : ParserLoop) (len : Nat) : Option Nat :=
+  match l.cap with
+  | some c => some c
+  | none =>
+    if l.countMax ≤ 65535 then some l.countMax
+    else if l.minBytes > 0 then some (len / l.minBytes + 1)
+    else none
+
 end DashLive.Inject
